@@ -125,10 +125,20 @@ fn canonical(ch: &Chan, n: u64, point: &PublicKey, c: &Content) -> Canon {
 }
 
 fn prepare(case_v: &SetupV, k: &ContentK) -> Result<(Chan, Content), String> {
-    let ch = open(WorldCfg::default(), case_v)?;
+    prepare_r(case_v, k, false)
+}
+
+/// `restart`: the signer is restarted from its store after the prefix, before the request
+fn prepare_r(case_v: &SetupV, k: &ContentK, restart: bool) -> Result<(Chan, Content), String> {
+    let mut ch = open(WorldCfg::default(), case_v)?;
     ch.start()?;
     let c = content_for(case_v, k);
     ch.approve_out(&c)?;
+    if restart {
+        let Chan { w, cp, setup, params, v } = ch;
+        let w = crate::ev::catch(move || w.restart()).map_err(|p| format!("restart panicked: {}", p))?;
+        ch = Chan { w, cp, setup, params, v };
+    }
     Ok((ch, c))
 }
 
@@ -385,9 +395,9 @@ fn verify_commit_sig(ch: &Chan, tx: &Transaction, sig: &Signature) -> bool {
 }
 
 /// base case: semantic entry point, then raw entry point on a twin world
-fn run_base(v: &SetupV, k: &ContentK) -> Res {
+fn run_base(v: &SetupV, k: &ContentK, restart: bool) -> Res {
     let mut r = Res::default();
-    let (ch, c) = match prepare(v, k) {
+    let (ch, c) = match prepare_r(v, k, restart) {
         Ok(x) => x,
         Err(e) => {
             r.skipped = true;
@@ -440,7 +450,7 @@ fn run_base(v: &SetupV, k: &ContentK) -> Res {
         return r;
     }
     // raw entry point on the twin world: must accept the canonical tx and return the same signature
-    let (ch2, _) = match prepare(v, k) {
+    let (ch2, _) = match prepare_r(v, k, restart) {
         Ok(x) => x,
         Err(e) => {
             r.vio = Some(("C04:machinery".into(), e));
@@ -564,14 +574,15 @@ pub fn main(tier: Tier) -> i32 {
         Tier::Quick => vec![ContentK::NoHtlc, ContentK::Offered, ContentK::Received, ContentK::TwoSameReceived, ContentK::Both, ContentK::EdgeAbove, ContentK::EdgeBelow],
         Tier::Thorough => vec![ContentK::NoHtlc, ContentK::Offered, ContentK::Received, ContentK::TwoSameReceived, ContentK::Both, ContentK::EdgeAbove, ContentK::EdgeBelow, ContentK::Three],
     };
-    let bases: Vec<(SetupV, ContentK)> = setups.iter().flat_map(|v| kinds.iter().map(move |k| (v.clone(), k.clone()))).collect();
+    // every base without and with a restart of the signer between the prefix and the request
+    let bases: Vec<(SetupV, ContentK, bool)> = setups.iter().flat_map(|v| kinds.iter().flat_map(move |k| [false, true].into_iter().map(move |r| (v.clone(), k.clone(), r)))).collect();
     let t0 = std::time::Instant::now();
-    let base_res = par_map(&bases, nthreads(), |(v, k)| run_base(v, k));
+    let base_res = par_map(&bases, nthreads(), |(v, k, r)| run_base(v, k, *r));
     let mut accepted_bases = vec![];
     let mut stats: std::collections::BTreeMap<String, u64> = Default::default();
     let (mut evals, mut calls, mut cross, mut panics) = (0u64, 0u64, 0u64, 0u64);
     let mut classes: BTreeSet<String> = BTreeSet::new();
-    for ((v, k), r) in bases.iter().zip(base_res.iter()) {
+    for ((v, k, restarted), r) in bases.iter().zip(base_res.iter()) {
         evals += 1;
         calls += r.calls;
         cross += r.ldk_cross;
@@ -584,13 +595,16 @@ pub fn main(tier: Tier) -> i32 {
             if key == "C04:machinery" {
                 machinery_failure(what);
             }
-            run.violation(key, what, json!({"engine": "c04", "setup": v, "content": k, "muts": []}));
+            let key = if *restarted { format!("{}:after-restart", key) } else { key.clone() };
+            run.violation(&key, what, json!({"engine": "c04", "setup": v, "content": k, "restart": restarted, "muts": []}));
         }
         if r.skipped {
             machinery_failure(&format!("base {:?} {:?} could not be prepared: {}", v, k, r.class));
         }
         if r.accepted {
-            accepted_bases.push((v.clone(), k.clone()));
+            if !*restarted {
+                accepted_bases.push((v.clone(), k.clone()));
+            }
         } else if *k != ContentK::EdgeBelow {
             run.vacuous(&format!("base {:?} {:?} was not accepted by the semantic entry point ({})", v, k, r.class));
         }
@@ -694,7 +708,7 @@ pub fn replay(v: &Value) {
         } else {
             let sv: SetupV = serde_json::from_value(rp["setup"].clone()).unwrap_or_else(|e| machinery_failure(&format!("{}", e)));
             let k: ContentK = serde_json::from_value(rp["content"].clone()).unwrap_or_else(|e| machinery_failure(&format!("{}", e)));
-            let r = run_base(&sv, &k);
+            let r = run_base(&sv, &k, rp["restart"].as_bool().unwrap_or(false));
             println!("round {}: class={} violation={:?} panic={:?}", round, r.class, r.vio, r.panic);
         }
     }
